@@ -6,9 +6,9 @@
      internal/agent/agent.go:98-226                Agent.Run: history Open, S0, socket bind, the two snapshot
                                                    goroutines, Schedule, final status + finished flag (writeStatus, under
                                                    statusLock), deferred socket shutdown and history Close   -> astep
-     internal/persistence/jsondb/jsondb.go         Write (append a line), Close/Compact (read last line, create the
-                                                   twin _c.dat, write, unlink the original), ReadStatusToday/ParseFile
-                                                   (last parseable line of the newest file, EOF on an empty file) -> persisted
+     internal/persistence/jsondb/jsondb.go         Write (append a line), Close/Compact (read last line, write the twin as
+                                                   _c.dat.tmp, rename it to _c.dat, unlink the original),
+                                                   ReadStatusToday/ParseFile/dropCompacted                   -> persisted
      internal/client/client.go:198-222             GetLatestStatus             -> reported
      internal/agent/agent.go:270-280               live answer: Status forced to running
      internal/persistence/model/status.go:92-97    CorrectRunningStatus        -> correct
@@ -191,7 +191,7 @@ Inductive sockst := SockAbsent | SockStale | SockLive.
 Inductive mphase :=
 | MInit | MOpened | MS0 | MBound
 | MFinalLocked | MFinalComputed (s : snap) | MFinalWritten | MFinished | MUnbound
-| MCompactRead (s : snap) | MCompactCreated (s : snap) | MCompactWritten | MCompactDone | MClosed.
+| MCompactRead (s : snap) | MCompactCreated (s : snap) | MCompactWritten | MCompactRenamed | MCompactDone | MClosed.
 
 Inductive fsphase := FSleep | FLocked | FOv (o : ostatus) | FComputed (s : snap) | FGone.
 Inductive cphase := CIdle | CGot | CLocked | COv (o : ostatus) | CComputed (s : snap).
@@ -204,22 +204,25 @@ Record astate := mkA {
   file : list snap;        (* lines of the run's .dat, oldest first *)
   orig : bool;             (* the .dat exists *)
   cfile : option (list snap);  (* the compaction twin _c.dat *)
+  tmp : option (list snap);    (* _c.dat.tmp: the twin before it is published (since eb925d1); no reader pattern matches it *)
+  dlock : bool;            (* this process holds the exclusive flock on the DAG definition file (since a924e5c) *)
   wclosed : bool;          (* the writer has been closed *)
   sock : sockst }.
 
 Definition mrank (m : mphase) : nat :=
   match m with
   | MInit => 0 | MOpened => 1 | MS0 => 2 | MBound => 3 | MFinalLocked => 4 | MFinalComputed _ => 4 | MFinalWritten => 5 | MFinished => 6
-  | MUnbound => 7 | MCompactRead _ => 8 | MCompactCreated _ => 9 | MCompactWritten => 10 | MCompactDone => 11 | MClosed => 12
+  | MUnbound => 7 | MCompactRead _ => 8 | MCompactCreated _ => 9 | MCompactWritten => 10 | MCompactRenamed => 11
+  | MCompactDone => 12 | MClosed => 13
   end.
 
 Inductive alabel :=
-| LOpen | LWriteS0 | LBind
+| LLockDag | LOpen | LWriteS0 | LBind
 | LSched (l : slabel)
 | LFsWake | LFsOv | LFsTbl | LFsAppend
 | LNotify | LCLock | LCOv | LCTbl | LCAppend
 | LFinalLock | LFinalCompute | LFinalAppend | LFinish | LUnbind
-| LCompactRead | LCompactSkip | LCompactCreate | LCompactWrite | LCompactUnlink | LCloseWriter.
+| LCompactRead | LCompactSkip | LCompactCreate | LCompactWrite | LCompactRename | LCompactUnlink | LCloseWriter.
 
 (* writer.write under the writer's lock (writer.go:52-80): refused once closed; after Compact has unlinked the original
    the bytes go to an unlinked inode *)
@@ -227,15 +230,25 @@ Definition append (st : astate) (s : snap) : list snap :=
   if wclosed st then file st else if orig st then file st ++ [s] else file st.
 
 Definition with_sc (st : astate) (s : sched) : astate :=
-  mkA s (mp st) (fs st) (cp st) (file st) (orig st) (cfile st) (wclosed st) (sock st).
+  mkA s (mp st) (fs st) (cp st) (file st) (orig st) (cfile st) (tmp st) (dlock st) (wclosed st) (sock st).
 Definition with_mp (st : astate) (m : mphase) : astate :=
-  mkA (sc st) m (fs st) (cp st) (file st) (orig st) (cfile st) (wclosed st) (sock st).
+  mkA (sc st) m (fs st) (cp st) (file st) (orig st) (cfile st) (tmp st) (dlock st) (wclosed st) (sock st).
 Definition with_fs (st : astate) (f : fsphase) : astate :=
-  mkA (sc st) (mp st) f (cp st) (file st) (orig st) (cfile st) (wclosed st) (sock st).
+  mkA (sc st) (mp st) f (cp st) (file st) (orig st) (cfile st) (tmp st) (dlock st) (wclosed st) (sock st).
 Definition with_cp (st : astate) (c : cphase) : astate :=
-  mkA (sc st) (mp st) (fs st) c (file st) (orig st) (cfile st) (wclosed st) (sock st).
+  mkA (sc st) (mp st) (fs st) c (file st) (orig st) (cfile st) (tmp st) (dlock st) (wclosed st) (sock st).
 Definition with_file (st : astate) (f : list snap) : astate :=
-  mkA (sc st) (mp st) (fs st) (cp st) f (orig st) (cfile st) (wclosed st) (sock st).
+  mkA (sc st) (mp st) (fs st) (cp st) f (orig st) (cfile st) (tmp st) (dlock st) (wclosed st) (sock st).
+Definition with_orig (st : astate) (o : bool) : astate :=
+  mkA (sc st) (mp st) (fs st) (cp st) (file st) o (cfile st) (tmp st) (dlock st) (wclosed st) (sock st).
+Definition with_twin (st : astate) (c t : option (list snap)) : astate :=
+  mkA (sc st) (mp st) (fs st) (cp st) (file st) (orig st) c t (dlock st) (wclosed st) (sock st).
+Definition with_dlock (st : astate) (d : bool) : astate :=
+  mkA (sc st) (mp st) (fs st) (cp st) (file st) (orig st) (cfile st) (tmp st) d (wclosed st) (sock st).
+Definition with_wclosed (st : astate) (w : bool) : astate :=
+  mkA (sc st) (mp st) (fs st) (cp st) (file st) (orig st) (cfile st) (tmp st) (dlock st) w (sock st).
+Definition with_sock (st : astate) (k : sockst) : astate :=
+  mkA (sc st) (mp st) (fs st) (cp st) (file st) (orig st) (cfile st) (tmp st) (dlock st) (wclosed st) k.
 
 (* statusLock is held by the thread that is inside writeStatus *)
 Definition locked (st : astate) : bool :=
@@ -250,14 +263,18 @@ Definition last_line (l : list snap) : option snap :=
 
 Definition astep (st : astate) (l : alabel) : option astate :=
   match l with
+  (* agent.Run (since a924e5c): flock(LOCK_EX) on the DAG file before the already-running check, released when the socket listens *)
+  | LLockDag => match mp st with
+                | MInit => if dlock st then None else Some (with_dlock st true)
+                | _ => None end
   | LOpen => match mp st with
-             | MInit => Some (mkA (sc st) MOpened (fs st) (cp st) [] true (cfile st) false (sock st))
+             | MInit => if dlock st then Some (with_mp (with_wclosed (with_orig (with_file st []) true) false) MOpened) else None
              | _ => None end
   | LWriteS0 => match mp st with
                 | MOpened => Some (with_mp (with_file st (append st (snap_of (sc st)))) MS0)
                 | _ => None end
   | LBind => match mp st with
-             | MS0 => Some (mkA (sc st) MBound (fs st) (cp st) (file st) (orig st) (cfile st) (wclosed st) SockLive)
+             | MS0 => Some (with_mp (with_dlock (with_sock st SockLive) false) MBound)
              | _ => None end
   | LSched a => match mp st with
                 | MBound => match sstep (sc st) a with Some s' => Some (with_sc st s') | None => None end
@@ -293,9 +310,10 @@ Definition astep (st : astate) (l : alabel) : option astate :=
                     | _ => None end
   | LFinish => match mp st with MFinalWritten => Some (with_mp st MFinished) | _ => None end      (* report, mail *)
   | LUnbind => match mp st with
-               | MFinished => Some (mkA (sc st) MUnbound (fs st) (cp st) (file st) (orig st) (cfile st) (wclosed st) SockAbsent)
+               | MFinished => Some (with_mp (with_sock st SockAbsent) MUnbound)
                | _ => None end
-  (* Close -> Compact: ParseFile(original); create the twin; write the status read; unlink the original; close the writer *)
+  (* Close -> Compact (since eb925d1): ParseFile(original); remove a stale tmp and create <twin>.tmp; write the status read; close;
+     rename tmp -> <twin> (the twin appears complete, atomically); unlink the original; close the writer *)
   | LCompactRead => match mp st, last_line (file st) with
                     | MUnbound, Some s => Some (with_mp st (MCompactRead s))
                     | _, _ => None end
@@ -303,16 +321,19 @@ Definition astep (st : astate) (l : alabel) : option astate :=
                     | MUnbound, None => Some (with_mp st MCompactDone)        (* io.EOF: nothing to compact *)
                     | _, _ => None end
   | LCompactCreate => match mp st with
-                      | MCompactRead s => Some (mkA (sc st) (MCompactCreated s) (fs st) (cp st) (file st) (orig st) (Some []) (wclosed st) (sock st))
+                      | MCompactRead s => Some (with_mp (with_twin st (cfile st) (Some [])) (MCompactCreated s))
                       | _ => None end
   | LCompactWrite => match mp st with
-                     | MCompactCreated s => Some (mkA (sc st) MCompactWritten (fs st) (cp st) (file st) (orig st) (Some [s]) (wclosed st) (sock st))
+                     | MCompactCreated s => Some (with_mp (with_twin st (cfile st) (Some [s])) MCompactWritten)
                      | _ => None end
+  | LCompactRename => match mp st, tmp st with
+                      | MCompactWritten, Some l => Some (with_mp (with_twin st (Some l) None) MCompactRenamed)
+                      | _, _ => None end
   | LCompactUnlink => match mp st with
-                      | MCompactWritten => Some (mkA (sc st) MCompactDone (fs st) (cp st) (file st) false (cfile st) (wclosed st) (sock st))
+                      | MCompactRenamed => Some (with_mp (with_orig st false) MCompactDone)
                       | _ => None end
   | LCloseWriter => match mp st with
-                    | MCompactDone => Some (mkA (sc st) MClosed (fs st) (cp st) (file st) (orig st) (cfile st) true (sock st))
+                    | MCompactDone => Some (with_mp (with_wclosed st true) MClosed)
                     | _ => None end
   end.
 
@@ -320,7 +341,7 @@ Definition init_table (n : nat) : table := repeat (mkNode NNone 0) n.
 Definition init_sched (n : nat) : sched := mkSched (init_table n) false false SInit 0 0.
 (* s0: what the socket path holds when the agent starts (absent, or a stale file of a killed predecessor) *)
 Definition init (n : nat) (s0 : sockst) : astate :=
-  mkA (init_sched n) MInit FSleep CIdle [] false None false s0.
+  mkA (init_sched n) MInit FSleep CIdle [] false None None false false s0.
 
 Fixpoint exec (st : astate) (ls : list alabel) : option astate :=
   match ls with
@@ -329,25 +350,23 @@ Fixpoint exec (st : astate) (ls : list alabel) : option astate :=
   end.
 
 (* ---- what is reported ------------------------------------------------------------------------------- *)
-(* SIGKILL: the process is gone at once; files stay as they are; a bound socket becomes a stale file *)
+(* SIGKILL: the process is gone at once; files stay as they are (a stray tmp included); a bound socket becomes a stale file;
+   the kernel releases the flock on the DAG file *)
 Definition after_kill (st : astate) : astate :=
-  mkA (sc st) (mp st) (fs st) (cp st) (file st) (orig st) (cfile st) (wclosed st)
-      (match sock st with SockLive => SockStale | x => x end).
+  with_dlock (with_sock st (match sock st with SockLive => SockStale | x => x end)) false.
 
 Inductive pres := PNoData | PErr | PSnap (s : snap).
 
-(* ReadStatusToday (since 3aa388e): the files of the newest stamp, the original before its twin (same time stamp; glob order,
-   stable sort), each parsed with ParseFile = last line; a file without a parseable status is SKIPPED; nothing left =>
-   ErrNoStatusData, which GetLatestStatus turns into the default status without an error.  (History of earlier runs is not
-   part of this model: a run killed before its first line leaves no trace, as a run killed before Open does.)
+(* ReadStatusToday (since 3aa388e / eb925d1): the files matching <run>*.dat - the tmp file matches no reader pattern -; an
+   original whose published twin is among the matches is dropped (dropCompacted); each remaining file is parsed with
+   ParseFile = last line, a file without a parseable status is skipped; nothing left => ErrNoStatusData, which
+   GetLatestStatus turns into the default status without an error.  (History of earlier runs is not part of this model: a run
+   killed before its first line leaves no trace, as a run killed before Open does.)
    PErr stays in the result type because client.GetLatestStatus still has the arm; jsondb no longer produces it. *)
 Definition persisted (st : astate) : pres :=
-  match (if orig st then last_line (file st) else None) with
-  | Some s => PSnap s
-  | None => match cfile st with
-            | Some l => match last_line l with Some s => PSnap s | None => PNoData end
-            | None => PNoData
-            end
+  match cfile st with
+  | Some l => match last_line l with Some s => PSnap s | None => PNoData end
+  | None => match (if orig st then last_line (file st) else None) with Some s => PSnap s | None => PNoData end
   end.
 
 (* status.go:92-97 *)
@@ -377,7 +396,7 @@ Definition job_guard (r : snap * bool) : guard :=
   if snd r then GRefusedErr
   else match s_ov (fst r) with ORunning => GRefusedRunning | _ => GMinuteGuard end.
 
-(* a new agent on the same DAG: probe (client.GetCurrentStatus: a refused connection means "not running"), then
+(* a new agent on the same DAG: flock on the DAG file (blocks while a LIVE process holds it), probe (client.GetCurrentStatus: a refused connection means "not running"), then
    sock.Server.Serve: os.Remove(addr); net.Listen *)
 Definition probe_running (s : sockst) : bool := match s with SockLive => true | _ => false end.
 Definition bind_ok (unlink_first : bool) (s : sockst) : bool :=
